@@ -28,31 +28,32 @@ type Clause struct {
 }
 
 type Contract struct {
-	Key        string // e.g. "(Keeper).RecvPacket" or "IFACE ClientState.VerifyPacketCommitment"
-	PkgPath    string
-	Fn         *ssa.Function
-	IfaceType  string // for interface contracts: qualified interface type name
-	Method     string
-	Params     []string // explicit parameter names for interface contracts
-	Requires   []Clause
-	Ensures    []Clause
-	Modifies   []Clause
-	Lets       map[string]ast.Expr
-	LetOrder   []string
-	NoPanic    bool
-	DryRun     bool
-	Trusted    bool
-	Pure       bool
-	Invariants map[int][]Clause
-	Continues  map[int][]Clause // checked at every back edge of loop N
-	ForKeys    map[int]*ForKey  // loop N iterates a store: verify its body for an arbitrary key of a family
-	Unroll     map[int]int
-	File       *ContractFile
-	Line       int
-	Assumes    []string // free-text assumption notes
-	CallSites  []CallSiteClause
-	Inline     bool
-	renameTo   []string // verifyImpl: additional (interface) names for the parameters, positionally
+	Key         string // e.g. "(Keeper).RecvPacket" or "IFACE ClientState.VerifyPacketCommitment"
+	PkgPath     string
+	Fn          *ssa.Function
+	IfaceType   string // for interface contracts: qualified interface type name
+	Method      string
+	Params      []string // explicit parameter names for interface contracts
+	Requires    []Clause
+	Ensures     []Clause
+	Modifies    []Clause
+	Lets        map[string]ast.Expr
+	LetOrder    []string
+	NoPanic     bool
+	DryRun      bool
+	Trusted     bool
+	Pure        bool
+	Invariants  map[int][]Clause
+	Continues   map[int][]Clause // checked at every back edge of loop N
+	ForKeys     map[int]*ForKey  // loop N iterates a store: verify its body for an arbitrary key of a family
+	Unroll      map[int]int
+	File        *ContractFile
+	Line        int
+	Assumes     []string // free-text assumption notes
+	CallSites   []CallSiteClause
+	Inline      bool
+	viaContract *Contract // lemma layer: verify the clauses against this contract instead of the body
+	renameTo    []string  // verifyImpl: additional (interface) names for the parameters, positionally
 }
 
 // ForKey: "loop N forkey v1 T1, v2 T2 :: keyExpr [requires cond]". The body of loop N is executed with the
